@@ -177,6 +177,10 @@ package server
 //@   ensures [C16:expected-offset-taken-from-the-envelope] ghost.envelopeOf != nil ==> result.Offset == ghost.envelopeOf.Offset
 //@   ensures [C14:envelope-stored-as-decoded] ghost.envelopeOf != nil ==> arrOf(result.Value) == arrOf(ghost.envelopeOf.Value) && offOf(result.Value) == offOf(ghost.envelopeOf.Value) && len(result.Value) == len(ghost.envelopeOf.Value) && arrOf(result.Key) == arrOf(ghost.envelopeOf.Key) && len(result.Key) == len(ghost.envelopeOf.Key) && result.AckInbox == ghost.envelopeOf.AckInbox && result.CorrelationID == ghost.envelopeOf.CorrelationId && result.AckPolicy == ghost.envelopeOf.AckPolicy && result.Offset == ghost.envelopeOf.Offset
 
+// (C16) a publish refused for its expected offset gets the incorrect-offset acknowledgement from this loop itself,
+// whatever its ack policy (nothing was appended, so nothing will ever commit and release a queued ack)
+//@ ghost var refusedOffset bool
+//@ ghost var refusalSent bool
 // storable(m): m passed the gates in front of the log: with an encryption handler its value is a Seal output
 //@ func (*partition).messageProcessingLoop serves C04, C17, C16
 //@   requires p != nil && p.srv != nil && p.srv.config != nil
@@ -187,6 +191,13 @@ package server
 //@   call Append requires [only-gated] forall j int :: 0 <= j && j < len(arg1) ==> arg1[j] != nil && (p.encryptionHandler == nil || ghost.sealed[arg1[j].Value])
 //@   call Append requires [cc-single] len(arg1) >= 1 && (ghost.cc ==> len(arg1) == 1)
 //@   call sendAck requires [negative] arg1.AckError != 0
+//@   ghost at entry: ghost.refusedOffset := false
+//@   ghost after call Append: ghost.refusedOffset := false
+//@   ghost after call Append: ghost.refusalSent := false
+//@   ghost after call Is: ghost.refusedOffset := ret0
+//@   ghost after call sendAck: ghost.refusalSent := ghost.refusalSent || arg1.AckError == client.Ack_INCORRECT_OFFSET
+//@   loop 1 invariant ghost.refusedOffset ==> ghost.refusalSent
+//@   loop 1 backedge requires [C16:a-refused-conditional-publish-is-answered-at-once] ghost.refusedOffset ==> ghost.refusalSent
 //@   call processPendingMessage requires [stored-pairing] err == nil && 0 <= i && i < len(offsets) && arg1 == offsets[i] && arg2 == msgBatch[i]
 //@   call SetHighWatermark requires [stored-offset] err == nil && arg1 == offsets[len(offsets)-1]
 //@   call updateISRLatestOffset requires [stored-offset] err == nil && arg2 == offsets[len(offsets)-1]
